@@ -18,6 +18,7 @@ import (
 	"go/token"
 	"go/types"
 	"os"
+	"regexp"
 	"sort"
 	"strings"
 	"sync"
@@ -153,6 +154,7 @@ func LoadNormalised(opts LoadOpts, dry func(*Prog)) (*Prog, error) {
 	info := &NormInfo{}
 	const maxRounds = 4
 	canonTry := 0 // 0: both rewrites, 1: library forms only, 2: methods only
+	canonAgain := false
 	// round 0 and the last round rewrite library forms (canon.go); the rounds between expand helpers
 	for round := -1; round <= maxRounds+2; round++ {
 		var res roundPlan
@@ -255,6 +257,17 @@ func LoadNormalised(opts LoadOpts, dry func(*Prog)) (*Prog, error) {
 			info.Removed = append(info.Removed, res.removed...)
 		}
 		info.Expanded = append(info.Expanded, res.expanded...)
+		if round == 0 && !canonAgain {
+			// a rename made in this round can enable another rewrite of the same round (a function that got an anchored
+			// method's name back gets its receiver back next): one more pass
+			for _, e := range res.expanded {
+				if strings.HasSuffix(e, "(again)") {
+					canonAgain = true
+					round--
+					break
+				}
+			}
+		}
 		if round <= maxRounds && round >= 0 {
 			info.Rounds = round
 		}
@@ -377,11 +390,13 @@ type roundPlan struct {
 }
 
 type inliner struct {
-	p     *Prog
-	round int
-	ctr   int
-	files map[string]*fileEdits
-	elig  map[*Fn]bool
+	lastImports  map[string]string // import path -> name needed by the expansion prepared last (freeNamesAgree)
+	addedImports map[string]bool   // file name + path: already added in this round
+	p            *Prog
+	round        int
+	ctr          int
+	files        map[string]*fileEdits
+	elig         map[*Fn]bool
 }
 
 func (in *inliner) file(pos token.Pos) *fileEdits {
@@ -618,10 +633,12 @@ func planRound(p *Prog, round int) roundPlan {
 		return false
 	}
 	for _, s := range sites {
+		in.lastImports = nil
 		ed, a, b, ok := in.expand(s)
 		if !ok {
 			continue
 		}
+		needImports := in.lastImports
 		// the copied helper text must not itself be edited in this round, and edits must not overlap
 		if overlaps(a, b) || inFrozen(a, b) || overlaps(s.callee.Decl.Pos(), s.callee.Decl.End()) {
 			continue
@@ -639,6 +656,16 @@ func planRound(p *Prog, round int) roundPlan {
 		})
 		fe := in.file(a)
 		fe.edits = append(fe.edits, ed...)
+		for path, name := range needImports {
+			if in.addedImports == nil {
+				in.addedImports = map[string]bool{}
+			}
+			key := fe.name + "\x00" + path
+			if s.file != nil && !in.addedImports[key] {
+				in.addedImports[key] = true
+				fe.edits = append(fe.edits, textEdit{start: in.off(s.file.Name.End()), end: in.off(s.file.Name.End()), text: "\n\nimport " + name + " \"" + path + "\"\n"})
+			}
+		}
 		done[s.callee.Obj]++
 		caller := "package-level"
 		if s.owner != nil {
@@ -1045,6 +1072,17 @@ func (in *inliner) methodNeeded(f *Fn) bool {
 // leftmost reports whether `target` is the first operand evaluated inside root:
 // on the path from root to target every step goes to the operand that Go
 // evaluates first and evaluates unconditionally.
+// isTempOrLit: a temporary introduced by an earlier expansion (never shared, never addressed) or a literal.
+func isTempOrLit(e ast.Expr) bool {
+	switch x := ast.Unparen(e).(type) {
+	case *ast.BasicLit:
+		return true
+	case *ast.Ident:
+		return strings.HasPrefix(x.Name, "_inl")
+	}
+	return false
+}
+
 func leftmost(root ast.Expr, target ast.Expr) bool {
 	e := root
 	for {
@@ -1060,7 +1098,13 @@ func leftmost(root ast.Expr, target ast.Expr) bool {
 			}
 			e = x.X
 		case *ast.BinaryExpr:
-			e = x.X
+			// what is evaluated before the call may be a temporary of an earlier expansion or a literal: reading it
+			// commutes with the call
+			if x.Op != token.LAND && x.Op != token.LOR && isTempOrLit(x.X) && containsNode(x.Y, target) {
+				e = x.Y
+			} else {
+				e = x.X
+			}
 		case *ast.SelectorExpr:
 			e = x.X
 		case *ast.IndexExpr:
@@ -1092,6 +1136,9 @@ func leftmost(root ast.Expr, target ast.Expr) bool {
 					return false
 				}
 				e = x.Args[0]
+				for k := 0; k+1 < len(x.Args) && isTempOrLit(x.Args[k]) && !containsNode(x.Args[k], target); k++ {
+					e = x.Args[k+1]
+				}
 			case *ast.SelectorExpr:
 				if containsNode(fun.X, target) {
 					e = fun.X
@@ -1830,6 +1877,15 @@ func (b *bodyBuilder) prepare() bool {
 			b.bindArgs = append(b.bindArgs, b.argText[i])
 			continue
 		}
+		if lit, isLit := ast.Unparen(b.args[i]).(*ast.BasicLit); isLit && !assigned[pv] && (lit.Kind == token.INT || lit.Kind == token.STRING) {
+			// a literal argument for a parameter the helper never assigns or addresses: the typed constant stands for it
+			if bt, isBasic := b.ptype(pv).(*types.Basic); isBasic && bt.Info()&types.IsUntyped == 0 {
+				if tt, ok := b.typeText(bt); ok {
+					b.subst[pv] = tt + "(" + lit.Value + ")"
+					continue
+				}
+			}
+		}
 		if !assigned[pv] && b.substitutable(i, pv) {
 			t := b.argText[i]
 			if _, isId := ast.Unparen(b.args[i]).(*ast.Ident); !isId {
@@ -2282,6 +2338,15 @@ func (b *bodyBuilder) freeNamesAgree() bool {
 			_, at := scope.LookupParent(id.Name, b.s.call.Pos())
 			switch ov := o.(type) {
 			case *types.PkgName:
+				if at == nil && id.Name != "_" && id.Name != "." {
+					// the caller's file does not import the package (and nothing else has the name there): the import
+					// is added with the expansion
+					if in.lastImports == nil {
+						in.lastImports = map[string]string{}
+					}
+					in.lastImports[ov.Imported().Path()] = id.Name
+					return true
+				}
 				ap, isPkg := at.(*types.PkgName)
 				if !isPkg || ap.Imported() != ov.Imported() {
 					ok = false
@@ -2408,6 +2473,8 @@ type posEdit struct {
 	text string
 }
 
+var addrOfIdent = regexp.MustCompile(`^\(&[A-Za-z_][A-Za-z0-9_]*\)$`)
+
 func (b *bodyBuilder) render(from, to token.Pos, extra []posEdit) string {
 	in := b.in
 	var eds []posEdit
@@ -2441,6 +2508,10 @@ func (b *bodyBuilder) render(from, to token.Pos, extra []posEdit) string {
 		}
 		if v, ok := b.info.Uses[id].(*types.Var); ok {
 			if t, ok := b.subst[v]; ok {
+				if sel, isSel := b.in.p.parents[id].(*ast.SelectorExpr); isSel && sel.X == ast.Expr(id) && addrOfIdent.MatchString(t) {
+					// (&x).f and (&x).m() are x.f and x.m(): x is addressable, or &x would not have compiled
+					t = t[2 : len(t)-1]
+				}
 				eds = append(eds, posEdit{id.Pos(), id.End(), t})
 			}
 		}
